@@ -33,7 +33,9 @@ func caseGen() *rapid.Generator[Case] {
 		AllowCopy: true,
 		Creators:  []string{"core", "core", "core", "csv", "texttable", "html", "json", "markdown", "auto:utf8-light"},
 	})
-	return rapid.Custom(func(t *rapid.T) Case { return Case{Script: sg.Draw(t, "script")} })
+	return rapid.Custom(func(t *rapid.T) Case {
+		return Case{Script: sg.Draw(t, "script"), SepAfter: rapid.IntRange(0, 5).Draw(t, "sep-after") == 0}
+	})
 }
 
 func TestProp(t *testing.T) { prop.Rapid(t, caseGen()) }
